@@ -38,6 +38,7 @@ def register(w):
                 "assert[first-eligible-wins] winner == eligible[0]",
                 "W = store(W, winner, True)")
         c.ens("forall[int](lambda i: implies(0 <= i and i < len(result), result[i] != None and final_W[result[i]]))", label="ghost:only-nominated-transitions-are-selected")
+        c.ens("forall[int](lambda i: implies(0 <= i and i < len(result), result[i] != None and result[i].source != None))", label="selected-transitions-have-a-source")
         c.ens("forall[Trans](lambda t: implies(final_W[t], t in result))", label="ghost:every-nominated-transition-is-selected")
         c.ens("forall[int, int](lambda i, j: implies(0 <= i and i < j and j < len(result), result[i] != result[j]))", label="a-shared-transition-is-selected-once")
         c.ens("forall[int, int](lambda i, j: implies(0 <= i and i < j and j < len(result), result[i].source.depth >= result[j].source.depth))", label="deepest-source-first")
@@ -49,11 +50,23 @@ def register(w):
             "forall[int](lambda j: implies(0 <= j and j < _i, visited[_seq[j]]))",
         ])
 
+    @w.contract(BI + "_coerce_event", props=["C02"])
+    def _(c):
+        c.trusted = "assumed: normalises str / dict / event objects into a non-null event or raises TypeError (isinstance dispatch over python dynamic types); effect-free"
+        c.no_runtime = True
+        c.param("event", OPAQUE).returns(Ev)
+        c.ens("result != None")
+        c.may_raise("TypeError")
+
     @w.contract(BI + "can", props=["C02"])
     def _(c):
-        c.bounded_only = True
+        # frame: NO field of the interpreter is in `modifies` - can() changes nothing (configuration, context, history,
+        # queue, timers ...), whether it answers True or False and also when selection fails (reported as False)
         c.param("event", OPAQUE).returns(BOOL)
-        c.ens("result == (len(spec_selected(self, self._coerce_event(event))) > 0)", label="can-iff-nominee-exists")
+        c.req(f"legal({A})", f"forall[Node](lambda n: implies(n in {A}, n != None))")
+        c.ens("result == (len(spec_selected(self, self._coerce_event(event))) > 0)", label="rt:can-iff-nominee-exists")
+        c.ens("result == True or result == False", label="answers-a-boolean")
+        c.may_raise("TypeError")       # only for a value that is not an event at all; a failing guard lookup is answered False
 
     @w.contract(BI + "_is_state_done", props=["C10"])
     def _(c):
